@@ -179,11 +179,16 @@ func (s *SFTPStore) GetChunk(id ChunkID) (*Chunk, error) {
 func (s *SFTPStore) RemoveChunk(id ChunkID) error {
 	c := <-s.pool
 	defer func() { s.pool <- c }()
-	name := c.nameFromID(id)
-	if _, err := c.client.Stat(name); err != nil {
+	return c.RemoveChunk(id)
+}
+
+// RemoveChunk deletes a single chunk using this connection
+func (s *SFTPStoreBase) RemoveChunk(id ChunkID) error {
+	name := s.nameFromID(id)
+	if _, err := s.client.Stat(name); err != nil {
 		return ChunkMissing{id}
 	}
-	return c.client.Remove(name)
+	return s.client.Remove(name)
 }
 
 // StoreChunk adds a new chunk to the store
@@ -254,9 +259,10 @@ func (s *SFTPStore) Prune(ctx context.Context, ids map[ChunkID]struct{}) error {
 			continue
 		}
 		// See if the chunk we're looking at is in the list we want to keep, if not
-		// remove it.
+		// remove it. This uses the connection the walk is holding, waiting for another
+		// one from the pool would block forever if the pool holds just one.
 		if _, ok := ids[id]; !ok {
-			if err = s.RemoveChunk(id); err != nil {
+			if err = c.RemoveChunk(id); err != nil {
 				return err
 			}
 		}
